@@ -7,6 +7,38 @@ use super::ast::*;
 
 pub const BINOPS: &[&str] = &["||", "&&", "==", "!=", "<", "<=", "<.", "<=.", ">", ">=", ">.", ">=.", "<>", "+", "-", "+.", "-.", "*", "/", "*.", "/.", "%"];
 /// one representative per precedence level (plus the pipe, handled separately)
+/// Constant values: every leaf (literals of each kind, negative numbers, another constant, a
+/// constant of a module, constructors) alone, and inside each container shape (tuple, list,
+/// constructor arguments, concatenation) at each position.
+pub fn const_values() -> Vec<Expr> {
+    let i = |s: &str| Expr::Int(s.into());
+    let leaves: Vec<Expr> = vec![
+        i("1"),
+        Expr::Str("\"s\"".into()),
+        Expr::Float("1.5".into()),
+        Expr::Neg(Box::new(i("1"))),
+        Expr::Neg(Box::new(Expr::Float("1.5".into()))),
+        Expr::Var("d".into()),
+        Expr::Field(Box::new(Expr::Var("m".into())), "d".into()),
+        Expr::Ctor("V".into()),
+        Expr::Field(Box::new(Expr::Var("m".into())), "V".into()),
+    ];
+    let mut out = leaves.clone();
+    out.push(Expr::List(vec![], None));
+    for l in &leaves {
+        out.push(Expr::Tuple(vec![l.clone(), i("2")]));
+        out.push(Expr::Tuple(vec![i("2"), l.clone()]));
+        out.push(Expr::List(vec![l.clone(), i("2")], None));
+        out.push(Expr::List(vec![i("2"), l.clone()], None));
+        out.push(Expr::Call(Box::new(Expr::Ctor("V".into())), vec![Arg { label: None, value: ArgValue::Expr(l.clone()) }]));
+        out.push(Expr::Call(Box::new(Expr::Ctor("V".into())), vec![Arg { label: Some("l".into()), value: ArgValue::Expr(l.clone()) }, Arg { label: None, value: ArgValue::Expr(i("2")) }]));
+        out.push(Expr::Tuple(vec![Expr::Tuple(vec![l.clone()]), Expr::List(vec![l.clone()], None)]));
+    }
+    out.push(Expr::Bin("<>", Box::new(Expr::Str("\"s\"".into())), Box::new(Expr::Str("\"t\"".into()))));
+    out.push(Expr::Bin("<>", Box::new(Expr::Var("d".into())), Box::new(Expr::Str("\"t\"".into()))));
+    out
+}
+
 pub const BINOPS_REP: &[&str] = &["||", "&&", "==", "<", "<>", "+", "*"];
 
 pub fn prec(op: &str) -> u8 {
@@ -354,7 +386,7 @@ pub fn items(expr_depth: usize) -> Vec<Item> {
     // constants
     for public in [false, true] {
         for ann in [None, Some(int.clone())] {
-            for value in [Expr::Int("1".into()), Expr::Str("\"s\"".into()), Expr::Float("1.5".into()), Expr::Tuple(vec![Expr::Int("1".into()), Expr::Str("\"s\"".into())]), Expr::List(vec![Expr::Int("1".into()), Expr::Int("2".into())], None), Expr::List(vec![], None), Expr::Tuple(vec![Expr::Tuple(vec![Expr::Int("1".into())]), Expr::List(vec![Expr::Int("2".into())], None)])] {
+            for value in const_values() {
                 out.push(Item::Const { public, name: "c".into(), ann: ann.clone(), value });
             }
         }
